@@ -84,7 +84,14 @@ type Boolean interface {
 
 // CoerceBool coerces the given value into a boolean. Boolean false is returned
 // if the value cannot be coerced.
-func CoerceBool(v Value) bool {
+func CoerceBool(v Value) (b bool) {
+	if nilPointer(v) {
+		defer func() {
+			if recover() != nil {
+				b = false
+			}
+		}()
+	}
 	switch vc := v.(type) {
 	case SafeValue:
 		if nilReceiver(vc, "Value") {
@@ -185,6 +192,15 @@ func nilReceiver(v Value, method string) bool {
 	return ok
 }
 
+// nilPointer reports whether v is a nil pointer. Its methods are called
+// under recover: one that is promoted from a struct embedded by value cannot
+// be reached through the nil pointer at all, and the value then has no
+// content, like any other nil pointer.
+func nilPointer(v Value) bool {
+	r := reflect.ValueOf(v)
+	return r.Kind() == reflect.Ptr && r.IsNil()
+}
+
 func stringToFloat(s string) float64 {
 	fv, err := strconv.ParseFloat(s, 64)
 	if err != nil {
@@ -195,7 +211,14 @@ func stringToFloat(s string) float64 {
 
 // CoerceNumber coerces the given value into a number. Zero (0) is returned
 // if the value cannot be coerced.
-func CoerceNumber(v Value) float64 {
+func CoerceNumber(v Value) (f float64) {
+	if nilPointer(v) {
+		defer func() {
+			if recover() != nil {
+				f = 0
+			}
+		}()
+	}
 	switch vc := v.(type) {
 	case SafeValue:
 		if nilReceiver(vc, "Value") {
@@ -279,7 +302,14 @@ func formatFloat(f float64, bitSize int) string {
 
 // CoerceString coerces the given value into a string. An empty string is returned
 // if the value cannot be coerced.
-func CoerceString(v Value) string {
+func CoerceString(v Value) (s string) {
+	if nilPointer(v) {
+		defer func() {
+			if recover() != nil {
+				s = ""
+			}
+		}()
+	}
 	switch vc := v.(type) {
 	case SafeValue:
 		if nilReceiver(vc, "Value") {
